@@ -22,6 +22,7 @@ TRUSTED = ['rule files are real temporary files written before the analysis star
 ASSUMPTIONS = []
 
 A_RULES = '''
+field.description = regex_replace(field.description, "^q$", "A")
 is_pay = contains(field.memo, "P")
 
 [Salary]
@@ -44,6 +45,7 @@ tags: a
 '''
 
 B_RULES = '''
+field.memo = regex_replace(field.memo, "^x$", "77")
 field.memo = uppercase(field.memo)
 
 [Code]
@@ -173,9 +175,11 @@ def _load(which, mode='first_match'):
             text = f.read()
         with open(spath, 'w') as f:
             f.write(text)
-        path = spath
-    else:
-        path = files()[which]
+        # ... in the order the commands use: transforms first, then the rules
+        transforms = merchant_utils.get_transforms(spath, match_mode=mode)
+        rules = merchant_utils.get_all_rules(spath, match_mode=mode)
+        return (rules, transforms)
+    path = files()[which]
     rules = merchant_utils.get_all_rules(path, match_mode=mode)
     transforms = merchant_utils.get_transforms(path, match_mode=mode) if path else []
     return (rules, transforms)
